@@ -18,7 +18,11 @@ EXPLANATION = (
     "(text wrapped as TokenSkipped), with no clone of a terminal; (R10.4) pending trivia is only extended / "
     "pushed, and taken only in add_trivia_to_terminal where it is prepended to the terminal's own leading "
     "trivia; (R10.5) every GreenNodeDetails::Node built in cairo-lang-syntax has width = sum over exactly the "
-    "children it stores (or the empty default). That the parser's choice of where trivia is attached preserves "
+    "children it stores (or the empty default); (R10.7) every green value a parser routine obtains from a token-"
+    "consuming call (or receives as a parameter) is handed on - to a green constructor, a container, another parser "
+    "routine, a skip_taken_node* helper or the caller - on every feasible path to a return (flow-sensitive search "
+    "with the wrapper-variant, tuple-flag and is_empty facts of the parser's own idioms); (R10.8) a helper that "
+    "re-roots a child of an already built green node carries every sibling of that child into its result. That the parser's choice of where trivia is attached preserves "
     "order in every recovery scenario beyond these APIs is not decided.")
 ASSUMPTIONS = ["TextSpan::take / TextOffset::take_from return exactly the addressed slice of the input",
                "Vec::extend / push append at the end (order preserving)"]
@@ -274,7 +278,228 @@ def run(ctx):
     ctx.ob("R10.5", "width=sum(children)", not badw, "%d of %d node constructions have width = sum over their own children / empty default" % (n_ok, n_nodes), "")
     gw = F.find1("cairo_lang_syntax::node::green::GreenNode", name="width")
     ctx.ob("R10.5", "token-width=len(text)", any(c.name() == "from_str" for c in gw.calls()), "a token's width is TextWidth::from_str(text)", gw.where())
+    _handed_on(ctx, F)
+    _rerooting(ctx, F)
     _controls(ctx, F)
+
+
+def _load_drop_exceptions():
+    path = os.path.join(os.path.dirname(os.path.abspath(__file__)), "..", "tables", "c10_drop_exceptions.tsv")
+    ex = {}
+    if os.path.exists(path):
+        for line in open(path, encoding="utf-8"):
+            line = line.rstrip("\n")
+            if not line or line.startswith("#"):
+                continue
+            k, reason = line.split("\t", 1)
+            ex[k] = reason
+    return ex
+
+
+def _handed_on(ctx, F):
+    """R10.7: consumed greens are handed on along every path."""
+    from . import greenflow as G
+    ex = _load_drop_exceptions()
+    used_ex = set()
+    n_orig = n_param = n_fns = 0
+    helpers = set()
+    for p, f in sorted(F.fns.items()):
+        if not f.body or f.crate != "cairo_lang_parser":
+            continue
+        os_ = G.origins(f) + G.param_origins(f)
+        if not os_:
+            continue
+        n_fns += 1
+        ctx.analysed(f)
+        seen_keys = Counter()
+        for o in os_:
+            if o.call is None:
+                n_param += 1
+            else:
+                n_orig += 1
+            log = set()
+            try:
+                found = G.dropped_paths(f, o, log=log)
+            except RuntimeError as e:
+                ctx.ob("R10.7", "%s|%s|state-limit" % (fn_key(p), o.key()), False, "the path search did not finish: %s" % e, f.where(o.line()))
+                continue
+            helpers |= {x[1] for x in log if x[0] == "green-to-green helper"}
+            base = "%s|%s" % (fn_key(p), o.key())
+            seen_keys[base] += 1
+            if seen_keys[base] > 1:
+                base += "#%d" % seen_keys[base]
+            if not found:
+                ctx.ob("R10.7", base, True, "handed on along every path to a return", f.where(o.line()))
+                continue
+            for cls, path in sorted(found.items()):
+                key = "%s|%s" % (base, cls)
+                if key in ex:
+                    used_ex.add(key)
+                    ctx.ob("R10.7", key, True, "not handed on, accepted: %s" % ex[key], f.where(o.line()))
+                    continue
+                ctx.ob("R10.7", key, False,
+                       "the green obtained at line %s is dropped on a path to a return (%s; blocks %s): the text of the tokens it "
+                       "spans is lost from the tree" % (o.line(), cls, "->".join("bb%s" % b for b in path[:18])), f.where(o.line()))
+    for k in sorted(k for k in set(ex) - used_ex if not k.startswith("R10.8|")):
+        ctx.ob("R10.7", "stale-exception:" + k, False, "exception row matches no dropped path any more (remove it)", "tables/c10_drop_exceptions.tsv")
+    ctx.floor("token-consuming calls returning a green (origins)", n_orig, 550)
+    ctx.floor("green parameters of parser routines", n_param, 35)
+    ctx.notes.append("R10.7 analysed %d origins and %d parameters in %d functions of cairo_lang_parser" % (n_orig, n_param, n_fns))
+    ctx._c10_helpers = helpers
+
+
+def _children_reads(f):
+    """Locals that hold a reference to the `children` of a green node (field of GreenNodeDetails::Node, or
+    GreenNode::children())."""
+    out = set()
+    for _, _, st in f.stmts():
+        if st[0] == "a" and isinstance(st[1], int):
+            for pl in rvalue_places(st[2]):
+                for e in place_proj(pl):
+                    if isinstance(e, list) and e[0] == "f" and e[2] == "children" and e[3].endswith("green::GreenNodeDetails"):
+                        out.add(st[1])
+    for c in f.calls():
+        if c.name() == "children" and "green::GreenNode" in c.path:
+            out.add(place_local(c.dest))
+    return out
+
+
+def _checked_empty(F, f, sib_locals, carried_locals):
+    """Is the sibling (held in one of sib_locals) tested to be a node of an `..Empty` kind - a node without children,
+    of zero width - on every path on which a carried child reaches the result?"""
+    kinds = F.adts.get("cairo_lang_syntax::node::kind::SyntaxKind")
+    if not kinds or not sib_locals:
+        return False
+    names = [v["name"] for v in kinds["variants"]]
+    sib = set(sib_locals)
+    for c in f.calls():
+        if c.name() != "long" or not c.args or c.target is None:
+            continue
+        a = op_local(c.args[0])
+        if a is None or not ({a, f.resolve_copy(a)} & sib):
+            continue
+        r = place_local(c.dest)
+        for bb, t in f.switches():
+            info = f.switch_info(bb)
+            if not info or info[0] != "disc":
+                continue
+            pl = info[1]
+            if place_local(pl) != r or place_fields(pl) != ["kind"]:
+                continue
+            empty_succ, other_succ = set(), set()
+            for v, sx in t[2]:
+                nm = names[v] if isinstance(v, int) and v < len(names) else ""
+                ng = [x for x in F.find("cairo_lang_syntax::node::ast::" + nm + "::", name="new_green")] if nm.endswith("Empty") else []
+                if nm.endswith("Empty") and ng and all(x.argc == 1 for x in ng):
+                    empty_succ.add(sx)
+                else:
+                    other_succ.add(sx)
+            other_succ.add(t[3])
+            other_succ -= empty_succ
+            if not empty_succ:
+                continue
+            # blocks in which a carried child is put into the result
+            prod = set()
+            fl = set()
+            for l in carried_locals:
+                fl |= set(f.flows_to(l)) | {l}
+            for i, j, st in f.stmts():
+                if st[0] == "a" and place_local(st[1]) == 0 and any(place_local(x) in fl for x in rvalue_places(st[2])):
+                    prod.add(i)
+            for c2 in f.calls():
+                if place_local(c2.dest) == 0 and any(op_local(x) in fl for x in c2.args):
+                    prod.add(c2.bb)
+            if not prod:
+                continue
+            reach_other = set()
+            for o in other_succ:
+                reach_other |= f.reachable_blocks(o, avoid=[bb])
+            if not (prod & reach_other):
+                return True
+    return False
+
+
+def _rerooting(ctx, F):
+    """R10.8: a routine whose result is derived from one child of an existing node accounts for all siblings."""
+    n_fns = 0
+    n_rr = 0
+    for p, f in sorted(F.fns.items()):
+        if not f.body or f.crate != "cairo_lang_parser":
+            continue
+        roots = _children_reads(f)
+        if not roots:
+            continue
+        n_fns += 1
+        ctx.analysed(f)
+        from .greenflow import mentions_green
+        # what the routine produces: its return value, and greens it hands to constructors
+        produced = set(f.derives_from(0)) if mentions_green(f.local_ty(0)) else set()
+        for c in f.calls():
+            if c.name() == "new_green":
+                for a in c.args:
+                    l = op_local(a)
+                    if l is not None:
+                        produced |= set(f.derives_from(l)) | {l}
+        # element reads `x = (*slice)[const i]`
+        reads = defaultdict(dict)   # slice local -> {index: [dest locals]}
+        for _, _, st in f.stmts():
+            if st[0] == "a" and isinstance(st[1], int) and st[2][0] in ("use", "ref"):
+                pl = op_place(st[2][1]) if st[2][0] == "use" else st[2][1]
+                if pl is None or isinstance(pl, int):
+                    continue
+                base = place_local(pl)
+                if not (set(f.derives_from(base)) | {base}) & roots:
+                    continue
+                for e in place_proj(pl):
+                    if isinstance(e, list) and e[0] == "ci":
+                        reads[base].setdefault(e[1], []).append(st[1])
+        ordinal = 0
+        for sl, idx in sorted(reads.items()):
+            ordinal += 1
+            carried = {i for i, ls in idx.items() if any(l in produced for l in ls)}
+            if not carried:
+                continue          # the children are only inspected
+            n_rr += 1
+            # the slice length the code insisted on: `PtrMetadata(slice) == const n`
+            n = None
+            from .lib import operand_scalar
+            meta = {st[1] for _, _, st in f.stmts() if st[0] == "a" and st[2][0] == "un" and st[2][1] == "PtrMetadata"
+                    and op_local(st[2][2]) == sl}
+            for _, _, st in f.stmts():
+                if st[0] == "a" and st[2][0] == "bin" and st[2][1] == "Eq":
+                    for other, kop in ((st[2][2], st[2][3]), (st[2][3], st[2][2])):
+                        k = operand_scalar(f, kop)
+                        ol = op_local(other)
+                        if isinstance(k, int) and ol is not None and (ol in meta or f.resolve_copy(ol) in meta):
+                            n = k
+            key = "%s|children#%d" % (fn_key(p), ordinal)
+            if n is None:
+                ctx.ob("R10.8", key + "|len-unknown", False, "a child of an existing node flows into the result but the number of its siblings is not fixed by a length check", f.where())
+                continue
+            missing = [i for i in range(n) if i not in carried]
+            proven_empty = [i for i in missing if _checked_empty(F, f, idx.get(i, []), [l for i2 in carried for l in idx[i2]])]
+            missing = [i for i in missing if i not in proven_empty]
+            if proven_empty and not missing:
+                ctx.ob("R10.8", key + "|%d-of-%d" % (len(carried), n), True,
+                       "the result is built from child(ren) %s of a node with %d children; sibling(s) %s are checked to be of an empty (zero-width) kind before the result is produced" % (
+                           sorted(carried), n, proven_empty), f.where())
+                continue
+            exk = "R10.8|" + key + "|%d-of-%d" % (len(carried), n)
+            ex = _load_drop_exceptions()
+            if missing and exk in ex:
+                ctx.ob("R10.8", key + "|%d-of-%d" % (len(carried), n), True, "sibling(s) %s not carried, accepted: %s" % (missing, ex[exk]), f.where())
+                continue
+            ctx.ob("R10.8", key + "|%d-of-%d" % (len(carried), n), not missing,
+                   "the result is built from child(ren) %s of a node with %d children%s" % (
+                       sorted(carried), n, "" if not missing else "; sibling(s) %s are left out: their text is dropped when the result replaces the node" % missing),
+                   f.where())
+    helpers = getattr(ctx, "_c10_helpers", set())
+    for h in sorted(helpers):
+        hf = F.fns.get(h) or next((x for x in F.fns.values() if x.path == h), None)
+        ctx.ob("R10.8", "helper-analysed:" + fn_key(h), hf is not None and bool(_children_reads(hf)) if hf is not None else False,
+               "green-to-green helper used by R10.7 as value-preserving is covered by the sibling accounting", hf.where() if hf else "")
+    ctx.floor("routines reading the children of a green node", n_fns, 3)
+    ctx.floor("re-rooting sites", n_rr, 1)
 
 
 def _controls(ctx, F):
@@ -291,3 +516,18 @@ def _controls(ctx, F):
     m = Fn(d, f.crate)
     got = [c.name() for c in m.calls() if c.args and "f:pending_trivia" in op_prov(m, c.args[0], 4)]
     ctx.control("pending_trivia.clear() in skip_until", "clear" in got)
+    # R10.7: a parser routine that no longer forwards one of its green parameters
+    from . import greenflow as G
+    f = F.find1(PARSER, name="parse_item_inline_macro_given_bang")
+    d = copy.deepcopy(f.d)
+    hit = 0
+    for bl in d["body"]["blocks"]:
+        for st in bl["s"]:
+            if st[0] == "a" and st[2][0] == "use" and op_local(st[2][1]) == 3 and isinstance(st[1], int):
+                st[2][1] = ["k", "int", 0]
+                hit += 1
+    m = Fn(d, f.crate)
+    dropped = [o for o in G.param_origins(m) if o.param == 3 and G.dropped_paths(m, o)]
+    clean = [o for o in G.param_origins(f) if G.dropped_paths(f, o)]
+    ctx.control("parameter `path` of parse_item_inline_macro_given_bang no longer forwarded", hit > 0 and bool(dropped) and not clean)
+
